@@ -802,7 +802,8 @@ def make_world(layout: str, origin_vertex: bool = False) -> dict:
 
     w['props'] = {'version': ver, 'props': [prop('models/props/a.mdl', [1, 2]),
                                             prop('models/props_b/thing02.mdl', [1], flags=0x01, skin=-1, solidity=0, xbox=False),
-                                            prop('models/props/a.mdl', [], origin=[0.0, 0.0, 0.0])]}
+                                            prop('models/props/a.mdl', [], origin=[0.0, 0.0, 0.0]),
+                                            prop('models/Props/A.MDL', [2], origin=[4.0, 0.0, 0.0])]}     # differs from the first in case only
     base_d = {'origin': [3.0, 4.0, 5.5], 'angles': [0.0, 45.0, 0.0], 'orient': 0, 'leaf': 1, 'lighting': [10, 20, 30, 255], 'styles': [0, 0], 'sway': 0}
     w['detail_props'] = [
         dict(base_d, kind='model', model='models/detail/grass.mdl'),
